@@ -4,7 +4,9 @@ import (
 	"bytes"
 	"encoding/json"
 	"fmt"
+	"runtime"
 	"sort"
+	"sync/atomic"
 
 	"github.com/ethereum/go-ethereum/common"
 	abcitypes "github.com/tendermint/tendermint/abci/types"
@@ -176,6 +178,10 @@ func c12World(cf c12cfg) (*appx.World, appx.Genesis, []appx.Op) {
 		if cf.Fork {
 			ops = append(ops, op("checkin", s, 1, 0))
 		}
+		if s == 1 || s == cf.N {
+			// a validator key shared with keyper 0
+			ops = append(ops, op("checkin", s, 2, 0))
+		}
 		ops = append(ops, op("seen", s, 0, 0), op("cfg", s, 0, 0))
 	}
 	ops = append(ops, endblock)
@@ -199,7 +205,7 @@ func c12Step(w *appx.World, genesisSet map[string]int64, n c12node, o appx.Op, s
 		}
 		switch o.Kind {
 		case "checkin":
-			ref.Identities[w.U.Addrs[o.Sender]] = string(w.U.ValKeys[o.Sender][o.A])
+			ref.Identities[w.U.Addrs[o.Sender]] = string(w.U.ValKey(o.Sender, o.A))
 		case "cfg":
 			for _, ev := range res.Deliver.Events {
 				if ev.Type == "shutter.batch-config" {
@@ -272,6 +278,19 @@ func c12Step(w *appx.World, genesisSet map[string]int64, n c12node, o appx.Op, s
 	return next, ""
 }
 
+// c12Parallel: the large configurations expand each BFS level on several goroutines
+// (12-30 configurations are spread over 16 worker processes; the largest would
+// otherwise decide the wall time alone).
+func c12Parallel(cf c12cfg) int {
+	if cf.N >= 3 && cf.Fork {
+		return 6
+	}
+	if cf.N >= 3 {
+		return 2
+	}
+	return 1
+}
+
 func c12Key(n c12node) string {
 	// the reference is a function of the observable history; two histories that
 	// reach the same app state but different reference states are kept apart.
@@ -313,13 +332,16 @@ func c12() *report.Check {
 				genesisSet := map[string]int64{string(appx.GenesisValidator): 10}
 				ref := &refVal{ForkOn: cf.Fork, Identities: map[common.Address]string{}, Valset: map[string]int64{string(appx.GenesisValidator): 10},
 					Configs: []refCfg{{Keypers: w.U.AddrsOf(g.Members), Threshold: g.Threshold, Index: 0}}}
+				if p := c12Parallel(cf); p > 2 {
+					runtime.GOMAXPROCS(p)
+				}
 				var b *explore.BFS[c12node]
 				b = &explore.BFS[c12node]{
-					Key: c12Key, MaxDepth: depth, Deadline: c.Deadline, KeepPaths: true,
+					Key: c12Key, MaxDepth: depth, Deadline: c.Deadline, KeepPaths: true, Parallel: c12Parallel(cf),
 					Expand: func(n c12node, d int, path []string, emit func(string, c12node)) {
 						for _, o := range alphabet {
 							next, msg := c12Step(w, genesisSet, n, o, c.Stats)
-							c.Stats.Traces++
+							atomic.AddInt64(&c.Stats.Traces, 1)
 							if msg != "" {
 								c.Violation("C12/validator-set-not-as-intended", fmt.Sprintf("n=%d t=%d fork=%v after %v then %s:\n%s", cf.N, cf.T, cf.Fork, path, o, msg),
 									c12Replay{Cfg: cf, Ops: append(append(append([]appx.Op{}, n.pre...), parseOps(path)...), o)})
